@@ -499,6 +499,26 @@ func init() {
 					}
 				}})
 		}
+		// replayable pool variants for the pairs whose content passes through stubbed parsers
+		for _, p := range c20Pairs {
+			p := p
+			if p.kind != "dnsrfc" && p.kind != "aia" || only != "" && !strings.Contains(p.a+" "+p.b, only) {
+				continue
+			}
+			base := sweepTune(c, "C20")
+			c.Add(&Job{Label: "pool/" + p.a + " ~ " + p.b, Pkg: rootPkg, Func: "VerifC20Pair", Sweep: true, NoReplay: true,
+				KeyOf: func(f *AssertFail) string { return "pair/" + p.a + " ~ " + p.b + ": " + f.Msg },
+				Tune: func(cf *Config) {
+					base(cf)
+					// the certificate is concretely in scope: the real scope predicates decide
+					cf.UF0 = map[string]bool{}
+					cf.ListBound = 2
+					cf.Bounds["param:c20.pool"] = 1
+					cf.Bounds["split"] = 8
+					cf.StrParams["c20.a"], cf.StrParams["c20.b"], cf.StrParams["c20.kind"], cf.StrParams["c20.rel"] = p.a, p.b, p.kind, p.rel
+					cf.Deadline = time.Now().Add(90 * time.Second)
+				}})
+		}
 		c.Extra["pairs"] = len(c20Pairs)
 		c.Post = sweepPost
 	}
